@@ -48,6 +48,8 @@ func runC09(r *oblig.Report) {
 	prePassClauses(c.P, r, "R9.1", "join", "one-line-out-per-line-in", "split", "inline-comment-cut", "line-loop")
 	e5path.SyntaxErrorAlwaysRecords(c.P, r, "R5.2")
 	lfs := c.Reach(c.Entries("transformer.TransformDSLToProto", "transformer.TransformModularDSLToProto"))
+	r.Rule("R5.4s", "path-enumeration", "a declaration that meets the conditions under which its callback registers it is registered or reported on every path of that callback (never dropped from the bookkeeping silently)", 3)
+	e5path.NeverDroppedSilently(c.P, r, "R5.4s", declarationTables)
 	r.Rule("R5.4d", "universe", "the declaration tables the listener holds only grow while a document is walked (no delete, no clear)", 0)
 	e5path.TablesOnlyGrow(c.P, r, "R5.4d", lfs)
 	noPackageState(c.P, r, lfs)
